@@ -33,4 +33,10 @@ CLAIMED["C10"] = dict(
          "pre-checks, injectivity of the signed octets (any alteration fails under the stated idealisation); model tied to /repo "
          "by vm_compute correspondence on the hooked rawSignatureData and independent crypto on the model's octets",
     technique="machine-checked proof in Coq (permutation/sorting lemmas, unique parsing of the signed octets) + model/implementation correspondence by vm_compute")
+CLAIMED["C16"] = dict(
+    text="Coq theorem: a copy procedure that is deep for the shape of a value leaves no cell of the original in the copy "
+         "(trees of mutable memory, any size); the copy() body and struct definition of every record, EDNS0 option and SVCB "
+         "parameter type are regenerated from /repo each run and checked deep by the kernel; dynamic address-range and "
+         "write-visibility oracles on the implementation; unpack-aliasing and read-only clauses by harness observation (partial)",
+    technique="machine-checked proof in Coq (nested induction over shapes) over translator-regenerated copy tables + reflect/unsafe aliasing oracle")
 NOT_YET = {}
